@@ -36,6 +36,7 @@ def reset():
     _LZ.clear()
     _SLC.clear()
     _GF2.clear()
+    _EXACT.clear()
 
 
 def nnodes():
@@ -252,6 +253,15 @@ def _add_norm(w, terms, c):
                 put(node(i), kk * k)
             cc[0] = (cc[0] + n.a[1] * k) & M
             return
+        if n.k == 'cat' and len(n.a) == 2 and n.a[1][0] == 'c' and n.a[1][1] == 0 and n.a[0][0] != 'c':
+            # zero-extension of a whole narrower sum that cannot wrap: the same sum at this width (flatten it)
+            sg = n.a[0]
+            inner = node(sg[0])
+            if inner.k == 'add' and sg[1] == 0 and sg[2] == inner.w and len(inner.a[0]) <= FLATTEN_MAX and _exact_sum(inner):
+                for i, kk in inner.a[0]:
+                    put(zext(node(i), w), kk * k)
+                cc[0] = (cc[0] + inner.a[1] * k) & M
+                return
         acc[n.id] = (acc.get(n.id, 0) + k) & M
     for n, k in terms:
         put(n, k)
@@ -268,7 +278,40 @@ def _add_norm(w, terms, c):
         if k & (k - 1) == 0:
             j = k.bit_length() - 1          # a single term times 2^j is a shift: one representation only
             return cat_segs([('c', 0, j)] + _slice_segs(segs(node(ts[0][0])), 0, w - j))
+    # a sum that cannot reach the top bit(s) - all coefficients non-negative and the syntactic upper bound small - has one
+    # representation only: the sum at its own width, zero-extended (the same width the executor derives from a linear form)
+    H = 1 << (w - 1)
+    if all(k < H for _, k in ts):
+        bound = cc[0]
+        for i, k in ts:
+            bound += k * ((1 << _eff_width(node(i))) - 1)
+            if bound >= H:
+                break
+        if bound < H:
+            w2 = bound.bit_length()
+            inner = _add_norm(w2, [(slc(node(i), 0, w2), k) for i, k in ts], cc[0])
+            return cat_segs(segs(inner) + [('c', 0, w - w2)])
     return _mk('add', w, (ts, cc[0]))
+
+
+_EXACT = {}
+
+
+def _exact_sum(n):
+    "add node whose terms (non-negative coefficients) cannot reach 2^w: its value is the unbounded integer sum"
+    r = _EXACT.get(n.id)
+    if r is None:
+        H = 1 << (n.w - 1)
+        bound = n.a[1]
+        r = True
+        for i, k in n.a[0]:
+            if k >= H:
+                r = False
+                break
+            bound += k * ((1 << _eff_width(node(i))) - 1)
+        r = r and bound < (1 << n.w)
+        _EXACT[n.id] = r
+    return r
 
 
 def add(w, items, c=0):
